@@ -2,6 +2,7 @@
 Require Import Pearl.Base.Prelude Pearl.Storage.Model Pearl.Storage.Spec Pearl.Storage.Theorems Pearl.Conc.Steps
                Pearl.Conc.StepsProofs.
 
+Require Pearl.Generated.Facts.
 (* For EVERY schedule of any number of clients, each running any program, the interleaved execution of the
    atomic steps equals a SEQUENTIAL history (its linearization): same final state, same answers in order.
    Hence every answer is the answer of the sequential model at its linearization point (C01/C02), and at
@@ -55,6 +56,16 @@ Theorem C08_old_deadlock_is_a_trap :
   forall (cap : N) (s : proto), deadlocked cap s -> forall s', pstep_old cap s s' -> deadlocked cap s'.
 Proof. exact old_deadlocked_is_trap. Qed.
 
+(* ---- structural facts re-extracted from the Rust source on every run (tools/extract_src.py, Generated/Facts.v):
+   the orderings inside the code that the models used above assume. A change of the code that invalidates one turns
+   the generated boolean into `false` and this file no longer compiles. ---- *)
+(* the protocol `pstep` of Conc/Steps.v (try_send) is the one the code follows *)
+Theorem C08_source_hints_never_wait : Pearl.Generated.Facts.HINTS_NEVER_WAIT = true.
+Proof. reflexivity. Qed.
+(* write does not hold the (fair) storage lock while its duplicate check takes it again *)
+Theorem C08_source_dupcheck_before_lock : Pearl.Generated.Facts.WRITE_DUPCHECK_BEFORE_LOCK = true.
+Proof. reflexivity. Qed.
+
 Print Assumptions C08_every_interleaving_is_sequential.
 Print Assumptions C08_program_order_preserved.
 Print Assumptions C08_duplicate_check_not_atomic_refuted.
@@ -64,3 +75,5 @@ Print Assumptions C08_queue_bounded.
 Print Assumptions C08_worker_gets_the_lock.
 Print Assumptions C08_old_protocol_deadlocks.
 Print Assumptions C08_old_deadlock_is_a_trap.
+Print Assumptions C08_source_hints_never_wait.
+Print Assumptions C08_source_dupcheck_before_lock.
